@@ -234,6 +234,14 @@ func (fr *Frame) exec(in ssa.Instruction, st *State) error {
 	case *ssa.Range:
 		// iterator: keep the ranged value
 		fr.env[x] = &Val{T: []Term{fr.term(x.X, st)}}
+		// a range over a map starts with nothing visited (ghost set, see execNext / visited(K, key))
+		if mt, isMap := under(x.X.Type()).(*types.Map); isMap {
+			if key, ok := fr.visitedKey(x); ok {
+				ks := c.sortOf(mt.Key())
+				c.registerKey(key, arraySort(ks, SBool), true)
+				st.set(key, Term{fmt.Sprintf("((as const %s) false)", arraySort(ks, SBool)), arraySort(ks, SBool)})
+			}
+		}
 		return nil
 	case *ssa.Next:
 		return fr.execNext(x, st)
@@ -974,6 +982,15 @@ func (fr *Frame) execNext(x *ssa.Next, st *State) error {
 		k := c.freshOfType("range_key", mt.Key())
 		// arbitrary iteration order: the key is any member of the map's domain
 		c.assumeG(implies(ok, and(not(eq(m, Term{"nil_ref", SRef})), sel(sel(c.get(st, dk), m, arraySort(ks, SBool)), k, SBool))))
+		// ghost set of the keys visited so far: an iteration yields a key not visited before, and the
+		// range ends only when every key of the map has been visited
+		if vkey, has := fr.visitedKey(rng); has && st.has(vkey) {
+			seen := c.get(st, vkey)
+			c.assumeG(implies(ok, not(sel(seen, k, SBool))))
+			dom := sel(c.get(st, dk), m, arraySort(ks, SBool))
+			c.assumeG(implies(not(ok), Term{fmt.Sprintf("(forall ((vk %s)) (=> (select %s vk) (select %s vk)))", ks, dom.S, seen.S), SBool}))
+			st.set(vkey, c.sc.define("visited", ite(ok, sto(seen, k, tTrue), seen)))
+		}
 		v := c.sc.define("range_val", sel(sel(c.get(st, vk), m, arraySort(ks, vs)), k, vs))
 		c.wellFormed(v, mt.Elem())
 		r.T = append(r.T, k, v)
@@ -1008,9 +1025,9 @@ func (fr *Frame) pseudoSinkKind(kind string, in ssa.Instruction, args []TV, st *
 		var recs []rec
 		for _, b := range fr.fn.Blocks {
 			for ii, i2 := range b.Instrs {
-				if kind == "append" {
+				if kind == "append" || kind == "delete" {
 					if cl, ok := i2.(*ssa.Call); ok {
-						if bi, ok := cl.Call.Value.(*ssa.Builtin); ok && bi.Name() == "append" {
+						if bi, ok := cl.Call.Value.(*ssa.Builtin); ok && bi.Name() == kind {
 							recs = append(recs, rec{i2, i2.Pos(), b.Index, ii})
 						}
 					}
@@ -1122,4 +1139,20 @@ func (fr *Frame) pseudoSink(kind string, in ssa.Instruction, args []TV, st *Stat
 		}
 		fr.oblige("sink", fmt.Sprintf("%s/%s", kind, clauseLabel(cl, i)), implies(fr.reach, t), in.Pos(), "before "+kind+": "+oneLine(cl.Text))
 	}
+}
+
+// visitedKey names the ghost state of a range over a map: the set of keys visited so far by loop K
+// (the loop whose head holds the Next of this Range). Contracts read it as visited(K, key).
+func (fr *Frame) visitedKey(rng *ssa.Range) (string, bool) {
+	if rng.Referrers() == nil || fr.loops == nil {
+		return "", false
+	}
+	for _, r := range *rng.Referrers() {
+		if nx, ok := r.(*ssa.Next); ok {
+			if l := fr.loops.heads[nx.Block()]; l != nil {
+				return fmt.Sprintf("MS:loop%d@%d", l.ordinal, fr.frameID), true
+			}
+		}
+	}
+	return "", false
 }
